@@ -120,5 +120,5 @@ EVALUATORS = {"templates": evaluate}
 
 
 def run(ctx) -> Stats:
-    n = int((3000 if ctx.quick else 100000) * ctx.options.get("scale", 1.0))
+    n = int((3000 if ctx.quick else 60000) * ctx.options.get("scale", 1.0))
     return drive(ctx, "templates", confgen.templates(), evaluate, max_examples=n)
